@@ -157,7 +157,8 @@ func unhex2(a, b byte) (byte, bool) {
 // verifPathHasDotDot: would the browser's path contain a parent-directory
 // segment (also spelled %2e%2e / .%2e / %2e.)?
 func verifPathHasDotDot(path string) bool {
-	for _, seg := range strings.Split(path, "/") {
+	// for the special schemes a browser treats a backslash in the path as a slash
+	for _, seg := range strings.Split(strings.ReplaceAll(path, "\\", "/"), "/") {
 		l := strings.ToLower(seg)
 		l = strings.ReplaceAll(l, "%2e", ".")
 		if l == ".." {
